@@ -7,6 +7,8 @@
 -/
 import OlricModel.Generated.ParsersSafe
 import OlricModel.Proofs.IRSound
+import OlricModel.Store.Pack
+import OlricModel.Generated.Facts
 namespace Olric.C16
 open Olric.IR Olric.Parsers
 
@@ -48,5 +50,44 @@ example : (match run (fun _ _ => true) (.cons (.ifLen 0 .lt 2 (.cons (.ret false
 example : (match run (fun _ _ => true)
     (.cons (.slice 1 0 1) (.cons (.loop 1 (.cons (.switchTok 1 0 (.cons [82, 67] (.cons (.slice 1 1 1) .nil) .nil) .nil) .nil)) (.cons (.ret true) .nil)))
     [[1], [120]] with | .spin => true | _ => false) = true := by decide
+
+/-! ## a table received over the network (fix ef8ceb4, finding F49) -/
+
+open Olric.Pack in
+/-- **C16 (received table).**  For every pack that `Pack.validate` accepts - whatever bytes, sizes and index it carries -
+    the decoded table is no larger than 4 GiB, its memory is exactly as long as its write offset, and every position that
+    the readers of the table access for an indexed entry (key-length byte, key, the three time stamps, the value length, the
+    value) lies inside the received memory: no reader of a decoded table indexes or slices out of range. -/
+theorem C16_validated_pack_reads_in_bounds (p : Pack) (h : validate p = true) :
+    p.allocated ≤ maxPackAllocation ∧ p.offset ≤ p.allocated ∧ p.memory.length = p.offset ∧
+    ∀ e ∈ p.hkeys, e.2 < p.memory.length ∧ vlenAt p.memory e.2 + 4 ≤ p.memory.length ∧
+      ∀ i ∈ readPositions p.memory e.2, i < p.memory.length := by
+  unfold validate at h
+  simp only [Bool.and_eq_true, decide_eq_true_eq, List.all_eq_true] at h
+  obtain ⟨⟨⟨ha, ho⟩, hm⟩, he⟩ := h
+  refine ⟨ha, ho, hm, ?_⟩
+  intro e hmem
+  have hk := he e hmem
+  unfold entryOk at hk
+  simp only [Bool.and_eq_true, decide_eq_true_eq] at hk
+  obtain ⟨⟨h1, h2⟩, h3⟩ := hk
+  refine ⟨by omega, by omega, ?_⟩
+  intro i hi
+  unfold readPositions at hi
+  rw [List.mem_range'_1] at hi
+  have : e.2 ≤ entryEnd p.memory e.2 := by unfold entryEnd vlenAt; omega
+  omega
+
+/-- the check is where the model says it is, regenerated from internal/kvstore/table/pack.go and
+    internal/cluster/routingtable/operations.go on every run -/
+theorem facts_tie_payloads : Facts.table_pack_is_checked_before_a_table_is_built = true ∧
+    Facts.pushed_table_is_checked_before_it_is_applied = true := by decide
+
+/-! Non-vacuity: one entry (key "ab", value [7,7,7]) at offset 0; and the three falsified packs of F49 are refused -/
+def goodMem : List Nat := [2, 97, 98] ++ List.replicate 24 0 ++ [0, 0, 0, 3] ++ [7, 7, 7]
+example : Pack.validate ⟨34, 512, goodMem, [(12345, 0)]⟩ = true := by decide
+example : Pack.validate ⟨612, 512, goodMem, [(12345, 0)]⟩ = false := by decide          -- write offset beyond the allocation
+example : Pack.validate ⟨34, 512, goodMem, [(12345, 562)]⟩ = false := by decide         -- index entry outside the table
+example : Pack.validate ⟨34, 512, [2, 97, 98] ++ List.replicate 24 0 ++ [127, 255, 0, 3] ++ [7, 7, 7], [(12345, 0)]⟩ = false := by decide  -- value length past the end
 
 end Olric.C16
